@@ -323,10 +323,27 @@ func runQuery(test string, c qCase, o qop, sb align.SeqBag) (res queryResult) {
 		other = x
 		otherBefore = snapshot(x)
 	}
+	// caller-owned arguments that are not containers (slices of sites, weights, count maps,
+	// partition sets): their printed form before the call must equal the one after it
+	type argWatch struct {
+		name   string
+		repr   func() string
+		before string
+	}
+	var argsWatched []argWatch
+	watchArg := func(name string, repr func() string) {
+		argsWatched = append(argsWatched, argWatch{name, repr, repr()})
+	}
+	ints := append([]int(nil), o.Ints...)
 	defer func() {
 		if other != nil {
 			if d := otherBefore.diff(snapshot(other)); d != "" {
 				res.other = d
+			}
+		}
+		for _, a := range argsWatched {
+			if after := a.repr(); after != a.before && res.other == "" {
+				res.other = fmt.Sprintf("argument %s: %s -> %s", a.name, a.before, after)
 			}
 		}
 	}()
@@ -420,13 +437,15 @@ func runQuery(test string, c qCase, o qop, sb align.SeqBag) (res queryResult) {
 		_, _, e := al.RefCoordinates(c.Ali.Rows[mod(o.K, n)].Name, o.I, mod(o.J, l+1))
 		errOK(e)
 	case "refsites":
-		_, e := al.RefSites(c.Ali.Rows[mod(o.K, n)].Name, o.Ints)
+		watchArg("sites", func() string { return fmt.Sprint(ints) })
+		_, e := al.RefSites(c.Ali.Rows[mod(o.K, n)].Name, ints)
 		errOK(e)
 	case "invcoords":
 		_, _, e := al.InverseCoordinates(o.I, mod(o.J, l+1))
 		errOK(e)
 	case "invpositions":
-		_, e := al.InversePositions(o.Ints)
+		watchArg("sites", func() string { return fmt.Sprint(ints) })
+		_, e := al.InversePositions(ints)
 		errOK(e)
 	case "countprofile":
 		p := align.NewCountProfileFromAlignment(al)
@@ -447,6 +466,7 @@ func runQuery(test string, c qCase, o qop, sb align.SeqBag) (res queryResult) {
 				w[i] = 1 + float64(i%3)
 			}
 		}
+		watchArg("weights", func() string { return fmt.Sprint(w) })
 		guard(func() {
 			_, e = dna.DistMatrix(al, w, m, -1, -1, -1, -1, o.B3, 0.5+o.F, 1+mod(o.K, 3))
 		})
@@ -538,7 +558,8 @@ func runQuery(test string, c qCase, o qop, sb align.SeqBag) (res queryResult) {
 		_, e := al.SubAlign(o.I, mod(o.J, l+2))
 		errOK(e)
 	case "selectsites":
-		_, e := al.SelectSites(o.Ints)
+		watchArg("sites", func() string { return fmt.Sprint(ints) })
+		_, e := al.SelectSites(ints)
 		errOK(e)
 	case "transpose":
 		_, e := al.Transpose()
@@ -563,6 +584,7 @@ func runQuery(test string, c qCase, o qop, sb align.SeqBag) (res queryResult) {
 			ps.AddRange("p1", "m", 0, k-1, 1)
 			ps.AddRange("p2", "m", k, l-1, 1)
 		}
+		watchArg("partition set", func() string { return ps.String() })
 		_, e := al.Split(ps)
 		errOK(e)
 	case "randsubalign":
@@ -588,6 +610,7 @@ func runQuery(test string, c qCase, o qop, sb align.SeqBag) (res queryResult) {
 		if o.B1 {
 			counts["nosuch"] = 1
 		}
+		watchArg("count map", func() string { return fmt.Sprint(counts) })
 		var e error
 		if o.Op == "rarefy" {
 			_, e = al.Rarefy(mod(o.J, total+2), counts)
